@@ -41,6 +41,7 @@ def typed(prog):
             for v in x:
                 walk(v)
     for f in p["funs"]:
+        f.setdefault("oname", f["name"])
         f["pts"] = [nt(a) for a in f["pts"]]
         f["rt"] = nt(f["rt"])
         walk(f["body"])
@@ -52,6 +53,7 @@ def typed(prog):
             walk(d["x"])
     p["recs"] = [[nt(t) for t in r] for r in p.get("recs", [])]
     p["uns"] = [[nt(t) for t in r] for r in p.get("uns", [])]
+    p.setdefault("exns", [])
     if "order" not in p:
         p["order"] = [["f", i] for i in range(len(p["funs"]))] + [["t", i] for i in range(len(p["top"]))]
     for k in ("feat", "seed", "render_opts"):
